@@ -490,42 +490,28 @@ impl Cluster {
         self.dead_nodes.push(xi);
     }
 
-    /// network/tcp_ops.rs::handle_client on end-of-file
+    /// end-of-file on the connection of link li at its target: the transport's own code
+    /// (network/tcp_ops.rs::connection_closed: unwatch-all, leave / replicate-leave through a fake client --
+    /// which may block in an election --, Client::left) runs on a thread of its own like every call that may block
     fn eof(&mut self, li: usize) {
         let ti = self.idx(&self.links[li].to.clone());
         self.enter(ti);
         let dbs = self.nodes[ti].dbs.clone();
         let dir = self.nodes[ti].dir.clone();
-        let member = {
-            let l = &mut self.links[li];
-            let _ = std::panic::catch_unwind(std::panic::AssertUnwindSafe(|| process_request("unwatch-all", &dbs, &mut l.server.0)));
-            let _ = drain_rx(&mut l.server.1);
-            let m = l.server.0.cluster_member.lock().unwrap().clone();
-            m
-        };
-        if let Some(m) = member {
-            let msg = match m.role {
-                ClusterRole::Primary => format!("leave {}", m.name),
-                _ => format!("replicate-leave {}", m.name),
-            };
-            let (mut fake, frx) = Client::new_empty_and_receiver();
-            fake.auth.store(true, Ordering::Relaxed);
-            let dbs2 = dbs.clone();
-            let (co, h) = run_co(
-                dir,
-                Box::new(move || {
-                    let r = std::panic::catch_unwind(std::panic::AssertUnwindSafe(|| process_request(&msg, &dbs2, &mut fake)));
-                    (fake, frx, r.ok())
-                }),
-            );
-            if wait_co(&co) {
-                let _ = h.join();
-            } else {
-                self.frames.push(Frame { co, handle: Some(h), kind: FrameKind::Fake });
-            }
+        let (mut sc, srx) = std::mem::replace(&mut self.links[li].server, Client::new_empty_and_receiver());
+        let (co, h) = run_co(
+            dir,
+            Box::new(move || {
+                let r = std::panic::catch_unwind(std::panic::AssertUnwindSafe(|| nundb::network::tcp_ops::verif_connection_closed(&mut sc, &dbs)));
+                (sc, srx, r.ok().map(|_| Response::Ok {}))
+            }),
+        );
+        if wait_co(&co) {
+            let _ = h.join();
+        } else {
+            self.frames.push(Frame { co, handle: Some(h), kind: FrameKind::Fake });
         }
         let l = &mut self.links[li];
-        l.server.0.left(&dbs);
         l.open = false;
         nundb::verif_hooks::close_link(l.id);
     }
